@@ -32,6 +32,7 @@ RULE = (
     "uest 2, 3 or 5 of a two-root bulk walk, which still has to deliver everything."
     " Policies max_bindings:2/3/4 (a persistent limit), three adjacent columns in every listi"
     "ng order, walks of more than 4096 instances."
+    " One walk over two adjacent 26000-row columns (52000 instances)."
 )
 ASSUMPTIONS = [
     "reference agent's GETBULK (vf/agent.py) follows RFC 3416 4.2.3; all truncation policies used are conformant",
